@@ -799,6 +799,10 @@ def run(chk):
     chk.floor("C14-D15.family", n15, 6, "update<Family>Grid overloads")
     n16 = c14more.output_rule(chk, db, "C14-D16.output", formula)
     chk.floor("C14-D16.output", n16, 4, "API calls that hand `output` to a Global routine")
+    n20 = c14more.tablebound_rule(chk, db, "C14-D20.tablebound")
+    chk.floor("C14-D20.tablebound", n20, 5, "comparisons of a level with the number of tabulated levels")
+    n21 = c14more.cwrap_rule(chk, db, "C14-D21.cwrap")
+    chk.floor("C14-D21.cwrap", n21, 2, "C entry points that wrap a file read")
     n17 = c14more.rawlen_rule(chk, db, "C14-D17.rawlen")
     chk.floor("C14-D17.rawlen", n17, 8, "array copies in raw-pointer make overloads")
     n19 = c14more.modes_rule(chk, db, "C14-D19.modes")
